@@ -10,7 +10,7 @@ type propCfg struct {
 	ThoroughBudgetS  int
 	OnePerProcess    bool
 	Extra            string // a second harness that also serves this property (gets a quarter of the workers)
-	Enumerate        bool // exhaustive walk of the decision tree instead of seeded sampling
+	Enumerate        bool   // exhaustive walk of the decision tree instead of seeded sampling
 	EnumWorkers      int
 	WatchdogSlackS   int
 	DetSeedsQuick    int
@@ -34,8 +34,8 @@ var props = map[string]*propCfg{
 		QuickRuns: 4000, QuickBudgetS: 90, ThoroughRuns: 400000, ThoroughBudgetS: 1200,
 		WatchdogSlackS: 120, DetSeedsQuick: 20, DetSeedsThorough: 200,
 		Rule: "one run = one seeded scenario (1-6 producers, 1-30 events each or 300-1000 for backlog runs, bursts and pauses, per-write broker latency 0 / ms / hundreds of ms / 2-12 s stall, Close after a drawn pause) under one seeded schedule of the real batching loop, writing loop, FifoBuffer and producers; non-trivial = more than one event accepted; distinct = distinct (scenario, interleaving hash) pairs",
-		Real:    []string{"common/event.KafkaWriter (WriteEvent, batchingLoop, writingLoop, Close, key derivation, protobuf encoding)", "common/event.FifoBuffer"},
-		Stub:    []string{"Kafka broker: injected write function with drawn latency (hook NewWriterForVerif)", "monitoring.Send (monitoring not running: no-op)"},
+		Real: []string{"common/event.KafkaWriter (WriteEvent, batchingLoop, writingLoop, Close, key derivation, protobuf encoding)", "common/event.FifoBuffer"},
+		Stub: []string{"Kafka broker: injected write function with drawn latency (hook NewWriterForVerif)", "monitoring.Send (monitoring not running: no-op)"},
 		Assumptions: append([]string{
 			"the broker accepts every batch (write errors are logged and dropped by the shipped write function; not part of the property)",
 			"events are published before Close is called (publishing after Close is outside the property)",
@@ -46,8 +46,8 @@ var props = map[string]*propCfg{
 		QuickRuns: 3000, QuickBudgetS: 90, ThoroughRuns: 300000, ThoroughBudgetS: 1200,
 		WatchdogSlackS: 120, DetSeedsQuick: 20, DetSeedsThorough: 200,
 		Rule: "one run = 1-4 commands with 0-5 targets each (overlapping target sets, timeouts 1/5/90/120 s) enqueued by 1-3 concurrent clients on the real CommandQueue+Servent; per (command,target) a behaviour from {reply, error reply, send failure, silence, duplicate, late, foreign id, id of another command, wrong sender} and a delay are drawn; replies are delivered by independent goroutines in schedule-decided order; non-trivial = at least one command with a target; distinct = distinct (scenario, interleaving)",
-		Real:    []string{"core/controlcommands: CommandQueue (Enqueue, Start loop, commit), Servent (RunCommand, ProcessResponse), MakeSingleTarget, consolidateResponses, MesosCommandMultiResponse"},
-		Stub:    []string{"send function (injected SendCommandFunc, the code's own seam)", "executors: replies drawn from the fault stream"},
+		Real: []string{"core/controlcommands: CommandQueue (Enqueue, Start loop, commit), Servent (RunCommand, ProcessResponse), MakeSingleTarget, consolidateResponses, MesosCommandMultiResponse"},
+		Stub: []string{"send function (injected SendCommandFunc, the code's own seam)", "executors: replies drawn from the fault stream"},
 		Assumptions: append([]string{
 			"replies scheduled within the last 10% before the timeout are not generated (the oracle does not decide races to the millisecond)",
 			"one queue per servent, as in the core (schedulerstate.go)",
@@ -58,8 +58,8 @@ var props = map[string]*propCfg{
 		QuickRuns: 4000, QuickBudgetS: 90, ThoroughRuns: 400000, ThoroughBudgetS: 1200,
 		WatchdogSlackS: 120, DetSeedsQuick: 20, DetSeedsThorough: 200,
 		Rule: "one run = a generated role tree (depth <= 4, fan-out 1-4, aggregator/include/task/call, critical flags) attached to a real ParentAdapter, 1-3 rounds of generated state/status updates applied by 1-4 concurrent updaters (each leaf owned by one updater) under a seeded schedule; after each round every node is compared with a reference fold written from the statement; non-trivial = more than one update; distinct = distinct (scenario, interleaving)",
-		Real:    []string{"core/workflow: aggregatorRole, includeRole, taskRole, callRole update paths, SafeState/SafeStatus merge and aggregate, ParentAdapter fan-out", "core/task/sm State.X, core/task Status.X"},
-		Stub:    []string{"event writer (DummyWriter, Kafka disabled)", "roles are constructed programmatically (hook constructors) instead of being loaded from a template"},
+		Real: []string{"core/workflow: aggregatorRole, includeRole, taskRole, callRole update paths, SafeState/SafeStatus merge and aggregate, ParentAdapter fan-out", "core/task/sm State.X, core/task Status.X"},
+		Stub: []string{"event writer (DummyWriter, Kafka disabled)", "roles are constructed programmatically (hook constructors) instead of being loaded from a template"},
 		Assumptions: append([]string{
 			"every leaf receives a status during the first round (as deployment does); the statement does not define the fold over never-reported (UNDEFINED) statuses",
 			"each leaf is updated by one goroutine at a time (updates to different tasks are concurrent)",
@@ -70,8 +70,8 @@ var props = map[string]*propCfg{
 		QuickRuns: 50000000, QuickBudgetS: 120, ThoroughRuns: 50000000, ThoroughBudgetS: 1200,
 		WatchdogSlackS: 120, DetSeedsQuick: 10, DetSeedsThorough: 50,
 		Rule: "complete depth-first enumeration of the decision tree: transition (CONFIGURE, START, STOP, RESET, EXIT from STANDBY, EXIT from CONFIGURED) x control mode (FairMQ, direct) x real device state at the time of the request (the believed one or another stable state) x outcome of every device step issued (done, refused in place, ends in ERROR, request lost, reply lost after the step was done, wrong event echoed, trigger not EXECUTOR); one leaf = one execution of the real Transitioner.Commit + RpcClient.doTransition; non-trivial = at least one device step; distinct = distinct leaves",
-		Real:    []string{"executor/executorcmd/transitioner: FairMQ.Commit/doConfigure/doReset, Direct.Commit, state maps", "executor/executorcmd.RpcClient.doTransition (reply acceptance rule)"},
-		Stub:    []string{"the device: reference FairMQ state machine (stable states, from the FairMQ documentation) / O2 state machine for direct control, implementing pb.OccClient (hook NewClientForVerif)"},
+		Real: []string{"executor/executorcmd/transitioner: FairMQ.Commit/doConfigure/doReset, Direct.Commit, state maps", "executor/executorcmd.RpcClient.doTransition (reply acceptance rule)"},
+		Stub: []string{"the device: reference FairMQ state machine (stable states, from the FairMQ documentation) / O2 state machine for direct control, implementing pb.OccClient (hook NewClientForVerif)"},
 		Assumptions: append([]string{
 			"a device refuses (ok=false, state unchanged) an event that is not valid in its current state",
 			"RESET DEVICE is accepted from INITIALIZED, BOUND and DEVICE READY only; INIT TASK from DEVICE READY only (FairMQ state machine)",
@@ -83,8 +83,8 @@ var props = map[string]*propCfg{
 		QuickRuns: 3000, QuickBudgetS: 90, ThoroughRuns: 300000, ThoroughBudgetS: 1200,
 		WatchdogSlackS: 120, DetSeedsQuick: 20, DetSeedsThorough: 200,
 		Rule: "one run = 1-4 cores (own ConsulSource each) with 1-3 concurrent callers doing 1-4 NewRunNumber calls each on one simulated Consul (counter absent / 41 / 500000), 0-2 foreign writers that atomically raise or rewrite the counter, per-request faults (500, connection error, response lost after apply, slow) at 0/5/20 %, a core dying at a drawn request before or after it was applied and being restarted; every KV request is two scheduling points; non-trivial = at least two successful calls; distinct = distinct (scenario, interleaving)",
-		Real:    []string{"apricot/local.Service.NewRunNumber", "configuration/cfgbackend.ConsulSource.GetNextUInt32", "github.com/hashicorp/consul/api KV client (request building, response parsing)", "net/http client above the transport"},
-		Stub:    []string{"Consul server: in-memory KV store as http.RoundTripper (GET/PUT/cas/consistent, ModifyIndex, X-Consul-Index)", "START_ACTIVITY integration is covered by the environment harness, not here"},
+		Real: []string{"apricot/local.Service.NewRunNumber", "configuration/cfgbackend.ConsulSource.GetNextUInt32", "github.com/hashicorp/consul/api KV client (request building, response parsing)", "net/http client above the transport"},
+		Stub: []string{"Consul server: in-memory KV store as http.RoundTripper (GET/PUT/cas/consistent, ModifyIndex, X-Consul-Index)", "START_ACTIVITY integration is covered by the environment harness, not here"},
 		Assumptions: append([]string{
 			"foreign writers only ever raise the counter or rewrite the same value, atomically (anything else makes uniqueness impossible by construction)",
 			"consistent reads are linearizable and cas is atomic in the simulated Consul, as documented for Consul",
@@ -95,108 +95,121 @@ var props = map[string]*propCfg{
 		Harness: "henv", Level: "exploration",
 		QuickRuns: 4000, QuickBudgetS: 100, ThoroughRuns: 300000, ThoroughBudgetS: 1500,
 		WatchdogSlackS: 240, DetSeedsQuick: 6, DetSeedsThorough: 60,
-		Rule: "one run = 1-3 concurrent clients issuing 3-12 requests (mostly the next legal event, 25% any event) on one real Environment, injected task-transition outcomes (fail 1/6, delays 0/20 ms/3 s), probe hooks at every moment plus 0-8 drawn hooks (weights -200..200, await same/later/never, critical, failing, delays); oracles: mutual exclusion of transition brackets, reference FSM over the serialisation order, illegal requests execute nothing, only documented states visible, every request returns; non-trivial = more than one request; distinct = distinct (scenario, interleaving)",
-		Real: []string{"core/environment.Environment: FSM callbacks, TryTransition, handleHooks, hook weights/await bookkeeping, run number and timestamp handling", "core/workflow call roles, callable.Call (Start/Await/Cancel, template execution of the call)", "core/integration plugin registry", "looplab/fsm (instrumented copy)", "apricot NewRunNumber over the real Consul client"},
-		Stub: []string{"task transition body (injected Transition, verif hook)", "integration plugin: probe plugin registered through the public RegisterPlugin API", "Consul: simconsul", "event writers: capturing writers (verif hook)", "callers follow the API rule (GO_ERROR after a failed request, forced ERROR if refused) as core/server.go does"},
+		Rule:        "one run = 1-3 concurrent clients issuing 3-12 requests (mostly the next legal event, 25% any event) on one real Environment, injected task-transition outcomes (fail 1/6, delays 0/20 ms/3 s), probe hooks at every moment plus 0-8 drawn hooks (weights -200..200, await same/later/never, critical, failing, delays); oracles: mutual exclusion of transition brackets, reference FSM over the serialisation order, illegal requests execute nothing, only documented states visible, every request returns; non-trivial = more than one request; distinct = distinct (scenario, interleaving)",
+		Real:        []string{"core/environment.Environment: FSM callbacks, TryTransition, handleHooks, hook weights/await bookkeeping, run number and timestamp handling", "core/workflow call roles, callable.Call (Start/Await/Cancel, template execution of the call)", "core/integration plugin registry", "looplab/fsm (instrumented copy)", "apricot NewRunNumber over the real Consul client"},
+		Stub:        []string{"task transition body (injected Transition, verif hook)", "integration plugin: probe plugin registered through the public RegisterPlugin API", "Consul: simconsul", "event writers: capturing writers (verif hook)", "callers follow the API rule (GO_ERROR after a failed request, forced ERROR if refused) as core/server.go does"},
 		Assumptions: append([]string{"teardown and the API-level paths (ControlEnvironment, DestroyEnvironment) are exercised by the whole-core harness, not here", "hook tasks are not generated here (calls only)"}, commonAssumptions...),
 	},
 	"C08": {
 		Harness: "henv", Level: "exploration",
 		QuickRuns: 4000, QuickBudgetS: 100, ThoroughRuns: 300000, ThoroughBudgetS: 1500,
 		WatchdogSlackS: 240, DetSeedsQuick: 6, DetSeedsThorough: 60,
-		Rule: "same workload as C01; oracles: hook starts matched one-to-one with trigger points of the reference, never before the trigger moment, ascending weights, awaited calls returned before anything later starts, equal-weight hooks started together (probes of one trigger expression block until all have started), calls pending at the end = calls whose await point was not reached; non-trivial = more than one request; distinct = distinct (scenario, interleaving)",
-		Real: []string{"core/environment.Environment: FSM callbacks, TryTransition, handleHooks, hook weights/await bookkeeping, run number and timestamp handling", "core/workflow call roles, callable.Call (Start/Await/Cancel, template execution of the call)", "core/integration plugin registry", "looplab/fsm (instrumented copy)", "apricot NewRunNumber over the real Consul client"},
-		Stub: []string{"task transition body (injected Transition, verif hook)", "integration plugin: probe plugin registered through the public RegisterPlugin API", "Consul: simconsul", "event writers: capturing writers (verif hook)", "callers follow the API rule (GO_ERROR after a failed request, forced ERROR if refused) as core/server.go does"},
+		Rule:        "same workload as C01; oracles: hook starts matched one-to-one with trigger points of the reference, never before the trigger moment, ascending weights, awaited calls returned before anything later starts, equal-weight hooks started together (probes of one trigger expression block until all have started), calls pending at the end = calls whose await point was not reached; non-trivial = more than one request; distinct = distinct (scenario, interleaving)",
+		Real:        []string{"core/environment.Environment: FSM callbacks, TryTransition, handleHooks, hook weights/await bookkeeping, run number and timestamp handling", "core/workflow call roles, callable.Call (Start/Await/Cancel, template execution of the call)", "core/integration plugin registry", "looplab/fsm (instrumented copy)", "apricot NewRunNumber over the real Consul client"},
+		Stub:        []string{"task transition body (injected Transition, verif hook)", "integration plugin: probe plugin registered through the public RegisterPlugin API", "Consul: simconsul", "event writers: capturing writers (verif hook)", "callers follow the API rule (GO_ERROR after a failed request, forced ERROR if refused) as core/server.go does"},
 		Assumptions: append([]string{"teardown and the API-level paths (ControlEnvironment, DestroyEnvironment) are exercised by the whole-core harness, not here", "hook tasks are not generated here (calls only)"}, commonAssumptions...),
 	},
 	"C09": {
 		Harness: "henv", Level: "exploration",
 		QuickRuns: 4000, QuickBudgetS: 100, ThoroughRuns: 300000, ThoroughBudgetS: 1500,
 		WatchdogSlackS: 240, DetSeedsQuick: 6, DetSeedsThorough: 60,
-		Rule: "same workload as C01 with failing hooks (critical or not, several at once); oracles: outcome and resulting state of each transition against the reference (before_/leave_ critical failure cancels, enter_/after_ reports only), no hook or task transition after a cancelling failure, error names the failure, no concurrent map write (R4 write windows), no hang; non-trivial = more than one request; distinct = distinct (scenario, interleaving)",
-		Real: []string{"core/environment.Environment: FSM callbacks, TryTransition, handleHooks, hook weights/await bookkeeping, run number and timestamp handling", "core/workflow call roles, callable.Call (Start/Await/Cancel, template execution of the call)", "core/integration plugin registry", "looplab/fsm (instrumented copy)", "apricot NewRunNumber over the real Consul client"},
-		Stub: []string{"task transition body (injected Transition, verif hook)", "integration plugin: probe plugin registered through the public RegisterPlugin API", "Consul: simconsul", "event writers: capturing writers (verif hook)", "callers follow the API rule (GO_ERROR after a failed request, forced ERROR if refused) as core/server.go does"},
+		Rule:        "same workload as C01 with failing hooks (critical or not, several at once); oracles: outcome and resulting state of each transition against the reference (before_/leave_ critical failure cancels, enter_/after_ reports only), no hook or task transition after a cancelling failure, error names the failure, no concurrent map write (R4 write windows), no hang; non-trivial = more than one request; distinct = distinct (scenario, interleaving)",
+		Real:        []string{"core/environment.Environment: FSM callbacks, TryTransition, handleHooks, hook weights/await bookkeeping, run number and timestamp handling", "core/workflow call roles, callable.Call (Start/Await/Cancel, template execution of the call)", "core/integration plugin registry", "looplab/fsm (instrumented copy)", "apricot NewRunNumber over the real Consul client"},
+		Stub:        []string{"task transition body (injected Transition, verif hook)", "integration plugin: probe plugin registered through the public RegisterPlugin API", "Consul: simconsul", "event writers: capturing writers (verif hook)", "callers follow the API rule (GO_ERROR after a failed request, forced ERROR if refused) as core/server.go does"},
 		Assumptions: append([]string{"teardown and the API-level paths (ControlEnvironment, DestroyEnvironment) are exercised by the whole-core harness, not here", "hook tasks are not generated here (calls only)"}, commonAssumptions...),
 	},
 	"C10": {
 		Harness: "henv", Level: "exploration",
 		QuickRuns: 4000, QuickBudgetS: 100, ThoroughRuns: 300000, ThoroughBudgetS: 1500,
 		WatchdogSlackS: 240, DetSeedsQuick: 6, DetSeedsThorough: 60,
-		Rule: "same workload as C01; probes snapshot run_number and the four run timestamps from their variable stack; oracles: run number absent at negative-weight before_START_ACTIVITY, present and constant until the end of the STOP_ACTIVITY / GO_ERROR transition, timestamps set at most once and ordered, previous run's timestamps not visible at the start of the next, end timestamps set however the run ended, number gone after the run; non-trivial = more than one request; distinct = distinct (scenario, interleaving)",
-		Real: []string{"core/environment.Environment: FSM callbacks, TryTransition, handleHooks, hook weights/await bookkeeping, run number and timestamp handling", "core/workflow call roles, callable.Call (Start/Await/Cancel, template execution of the call)", "core/integration plugin registry", "looplab/fsm (instrumented copy)", "apricot NewRunNumber over the real Consul client"},
-		Stub: []string{"task transition body (injected Transition, verif hook)", "integration plugin: probe plugin registered through the public RegisterPlugin API", "Consul: simconsul", "event writers: capturing writers (verif hook)", "callers follow the API rule (GO_ERROR after a failed request, forced ERROR if refused) as core/server.go does"},
+		Rule:        "same workload as C01; probes snapshot run_number and the four run timestamps from their variable stack; oracles: run number absent at negative-weight before_START_ACTIVITY, present and constant until the end of the STOP_ACTIVITY / GO_ERROR transition, timestamps set at most once and ordered, previous run's timestamps not visible at the start of the next, end timestamps set however the run ended, number gone after the run; non-trivial = more than one request; distinct = distinct (scenario, interleaving)",
+		Real:        []string{"core/environment.Environment: FSM callbacks, TryTransition, handleHooks, hook weights/await bookkeeping, run number and timestamp handling", "core/workflow call roles, callable.Call (Start/Await/Cancel, template execution of the call)", "core/integration plugin registry", "looplab/fsm (instrumented copy)", "apricot NewRunNumber over the real Consul client"},
+		Stub:        []string{"task transition body (injected Transition, verif hook)", "integration plugin: probe plugin registered through the public RegisterPlugin API", "Consul: simconsul", "event writers: capturing writers (verif hook)", "callers follow the API rule (GO_ERROR after a failed request, forced ERROR if refused) as core/server.go does"},
 		Assumptions: append([]string{"teardown and the API-level paths (ControlEnvironment, DestroyEnvironment) are exercised by the whole-core harness, not here", "hook tasks are not generated here (calls only)"}, commonAssumptions...),
 	},
 	"C02": {
 		Harness: "hcore", Level: "exploration", OnePerProcess: true,
 		QuickRuns: 3000, QuickBudgetS: 120, ThoroughRuns: 200000, ThoroughBudgetS: 1800,
 		WatchdogSlackS: 120, DetSeedsQuick: 0, DetSeedsThorough: 0,
-		Rule: "one run = one OS process booting the whole core in a bubble: 1-3 agents, a generated workflow of 0-4 tasks (critical or not, direct/FairMQ, each with a drawn start behaviour ok/late/fails/never and a drawn outcome ok/error-stay/error-state/silent/undeliverable/dies per CONFIGURE/START/STOP/RESET), NewEnvironment then 1-6 ControlEnvironment requests then DestroyEnvironment, drawn delivery latencies; oracle: each request succeeds iff every critical active task acknowledged (reference computed from the drawn outcomes), destination never reported on failure, environment in ERROR after a failure, error returned, every request returns; non-trivial = at least one task; distinct = distinct (scenario, interleaving)",
-		Real: []string{"core.RpcServer methods (NewEnvironment, ControlEnvironment, DestroyEnvironment, GetEnvironments, GetTasks, CleanupTasks)", "core/environment: Manager (create, teardown, event loop), Environment FSM, transition_*.go bodies", "core/task: Manager (acquire/configure/transition/release/kill, status handling), scheduler event handlers (offers, updates, messages, failure, reconciliation), roster, matching", "core/controlcommands", "core/workflow (load from a generated local git repository, role tree, template processing)", "core/repos (local repository)", "apricot/local + cfgbackend.ConsulSource + hashicorp consul api", "mesos-go controller, event/call rules, ack handling", "looplab/fsm (instrumented copy)"},
-		Stub: []string{"Mesos master, agents, executors and tasks: simmesos behind the calls.Caller seam (verif hook SetCallerForVerif)", "Consul: simconsul (http.RoundTripper)", "Kafka: capturing event writers", "gRPC transport: RPC methods are called directly on the RpcServer object (verif hook)", "metrics HTTP server: disabled (port -1)"},
+		Rule:        "one run = one OS process booting the whole core in a bubble: 1-3 agents, a generated workflow of 0-4 tasks (critical or not, direct/FairMQ, each with a drawn start behaviour ok/late/fails/never and a drawn outcome ok/error-stay/error-state/silent/undeliverable/dies per CONFIGURE/START/STOP/RESET), NewEnvironment then 1-6 ControlEnvironment requests then DestroyEnvironment, drawn delivery latencies; oracle: each request succeeds iff every critical active task acknowledged (reference computed from the drawn outcomes), destination never reported on failure, environment in ERROR after a failure, error returned, every request returns; non-trivial = at least one task; distinct = distinct (scenario, interleaving)",
+		Real:        []string{"core.RpcServer methods (NewEnvironment, ControlEnvironment, DestroyEnvironment, GetEnvironments, GetTasks, CleanupTasks)", "core/environment: Manager (create, teardown, event loop), Environment FSM, transition_*.go bodies", "core/task: Manager (acquire/configure/transition/release/kill, status handling), scheduler event handlers (offers, updates, messages, failure, reconciliation), roster, matching", "core/controlcommands", "core/workflow (load from a generated local git repository, role tree, template processing)", "core/repos (local repository)", "apricot/local + cfgbackend.ConsulSource + hashicorp consul api", "mesos-go controller, event/call rules, ack handling", "looplab/fsm (instrumented copy)"},
+		Stub:        []string{"Mesos master, agents, executors and tasks: simmesos behind the calls.Caller seam (verif hook SetCallerForVerif)", "Consul: simconsul (http.RoundTripper)", "Kafka: capturing event writers", "gRPC transport: RPC methods are called directly on the RpcServer object (verif hook)", "metrics HTTP server: disabled (port -1)"},
 		Assumptions: append([]string{"simmesos is a model of Mesos written from the scheduler API documentation", "replay of a violation is confirmed in a fresh process; tapes of this harness are not shrunk (one run per process)", "determinism of this harness is checked by replaying every violation in a fresh process (canonical log hash must match), not by the per-seed self-test"}, commonAssumptions...),
 	},
 	"C03": {
 		Harness: "hcore", Level: "exploration", OnePerProcess: true,
 		QuickRuns: 1600, QuickBudgetS: 150, ThoroughRuns: 100000, ThoroughBudgetS: 1800,
 		WatchdogSlackS: 180, DetSeedsQuick: 0, DetSeedsThorough: 0,
-		Rule: "one run = whole core in one OS process, 2-3 agents, a workflow of 1-3 tasks (critical or not) brought to CONFIGURED or RUNNING; a victim task and a failure kind (TASK_FAILED, TASK_LOST, TASK_KILLED, executor FAILURE, agent FAILURE, TASK_INTERNAL_ERROR) are drawn, injected 0-3 s later, idle or racing with a START/STOP request; the environment is polled for 150 simulated s; oracle: critical victim (or a critical task on the lost executor/agent) => ERROR reached and kept, end-of-run record published if a run was active; non-critical victim => state changes only through client requests; non-trivial = the oracle's situation really occurred; distinct = distinct (scenario, interleaving)",
-		Real: []string{"core.RpcServer methods (NewEnvironment, ControlEnvironment, DestroyEnvironment, GetEnvironments, GetTasks, CleanupTasks)", "core/environment: Manager (create, teardown, event loop), Environment FSM, transition_*.go bodies", "core/task: Manager (acquire/configure/transition/release/kill, status handling), scheduler event handlers (offers, updates, messages, failure, reconciliation), roster, matching", "core/controlcommands", "core/workflow (load from a generated local git repository, role tree, template processing)", "core/repos (local repository)", "apricot/local + cfgbackend.ConsulSource + hashicorp consul api", "mesos-go controller, event/call rules, ack handling", "looplab/fsm (instrumented copy)"},
-		Stub: []string{"Mesos master, agents, executors and tasks: simmesos behind the calls.Caller seam (verif hook SetCallerForVerif)", "Consul: simconsul (http.RoundTripper)", "Kafka: capturing event writers", "gRPC transport: RPC methods are called directly on the RpcServer object (verif hook)", "metrics HTTP server: disabled (port -1)"},
+		Rule:        "one run = whole core in one OS process, 2-3 agents, a workflow of 1-3 tasks (critical or not) brought to CONFIGURED or RUNNING; a victim task and a failure kind (TASK_FAILED, TASK_LOST, TASK_KILLED, executor FAILURE, agent FAILURE, TASK_INTERNAL_ERROR) are drawn, injected 0-3 s later, idle or racing with a START/STOP request; the environment is polled for 150 simulated s; oracle: critical victim (or a critical task on the lost executor/agent) => ERROR reached and kept, end-of-run record published if a run was active; non-critical victim => state changes only through client requests; non-trivial = the oracle's situation really occurred; distinct = distinct (scenario, interleaving)",
+		Real:        []string{"core.RpcServer methods (NewEnvironment, ControlEnvironment, DestroyEnvironment, GetEnvironments, GetTasks, CleanupTasks)", "core/environment: Manager (create, teardown, event loop), Environment FSM, transition_*.go bodies", "core/task: Manager (acquire/configure/transition/release/kill, status handling), scheduler event handlers (offers, updates, messages, failure, reconciliation), roster, matching", "core/controlcommands", "core/workflow (load from a generated local git repository, role tree, template processing)", "core/repos (local repository)", "apricot/local + cfgbackend.ConsulSource + hashicorp consul api", "mesos-go controller, event/call rules, ack handling", "looplab/fsm (instrumented copy)"},
+		Stub:        []string{"Mesos master, agents, executors and tasks: simmesos behind the calls.Caller seam (verif hook SetCallerForVerif)", "Consul: simconsul (http.RoundTripper)", "Kafka: capturing event writers", "gRPC transport: RPC methods are called directly on the RpcServer object (verif hook)", "metrics HTTP server: disabled (port -1)"},
 		Assumptions: append([]string{"simmesos is a model of Mesos written from the scheduler API documentation", "violations are confirmed by replaying the recorded tape in a fresh process (canonical log hash must match); tapes of this harness are not shrunk"}, commonAssumptions...),
 	},
 	"C04": {
 		Harness: "hcore", Level: "exploration", OnePerProcess: true,
 		QuickRuns: 1600, QuickBudgetS: 150, ThoroughRuns: 100000, ThoroughBudgetS: 1800,
 		WatchdogSlackS: 180, DetSeedsQuick: 0, DetSeedsThorough: 0,
-		Rule: "one run = whole core, 2-3 agents each with its own detector, 1-3 workflows over overlapping hosts, 1-3 concurrent clients each creating/controlling/destroying (force, keep-tasks, allow-running drawn) 1-3 environments and calling CleanupTasks, an observer polling GetEnvironments/GetTasks/GetTask; oracles: detectors of listed environments pairwise disjoint at every observation, no KILL for a task owned by an environment nobody asked to destroy, every request returns; non-trivial = the oracle's situation really occurred; distinct = distinct (scenario, interleaving)",
-		Real: []string{"core.RpcServer methods (NewEnvironment, ControlEnvironment, DestroyEnvironment, GetEnvironments, GetTasks, CleanupTasks)", "core/environment: Manager (create, teardown, event loop), Environment FSM, transition_*.go bodies", "core/task: Manager (acquire/configure/transition/release/kill, status handling), scheduler event handlers (offers, updates, messages, failure, reconciliation), roster, matching", "core/controlcommands", "core/workflow (load from a generated local git repository, role tree, template processing)", "core/repos (local repository)", "apricot/local + cfgbackend.ConsulSource + hashicorp consul api", "mesos-go controller, event/call rules, ack handling", "looplab/fsm (instrumented copy)"},
-		Stub: []string{"Mesos master, agents, executors and tasks: simmesos behind the calls.Caller seam (verif hook SetCallerForVerif)", "Consul: simconsul (http.RoundTripper)", "Kafka: capturing event writers", "gRPC transport: RPC methods are called directly on the RpcServer object (verif hook)", "metrics HTTP server: disabled (port -1)"},
+		Rule:        "one run = whole core, 2-3 agents each with its own detector, 1-3 workflows over overlapping hosts, 1-3 concurrent clients each creating/controlling/destroying (force, keep-tasks, allow-running drawn) 1-3 environments and calling CleanupTasks, an observer polling GetEnvironments/GetTasks/GetTask; oracles: detectors of listed environments pairwise disjoint at every observation, no KILL for a task owned by an environment nobody asked to destroy, every request returns; non-trivial = the oracle's situation really occurred; distinct = distinct (scenario, interleaving)",
+		Real:        []string{"core.RpcServer methods (NewEnvironment, ControlEnvironment, DestroyEnvironment, GetEnvironments, GetTasks, CleanupTasks)", "core/environment: Manager (create, teardown, event loop), Environment FSM, transition_*.go bodies", "core/task: Manager (acquire/configure/transition/release/kill, status handling), scheduler event handlers (offers, updates, messages, failure, reconciliation), roster, matching", "core/controlcommands", "core/workflow (load from a generated local git repository, role tree, template processing)", "core/repos (local repository)", "apricot/local + cfgbackend.ConsulSource + hashicorp consul api", "mesos-go controller, event/call rules, ack handling", "looplab/fsm (instrumented copy)"},
+		Stub:        []string{"Mesos master, agents, executors and tasks: simmesos behind the calls.Caller seam (verif hook SetCallerForVerif)", "Consul: simconsul (http.RoundTripper)", "Kafka: capturing event writers", "gRPC transport: RPC methods are called directly on the RpcServer object (verif hook)", "metrics HTTP server: disabled (port -1)"},
 		Assumptions: append([]string{"simmesos is a model of Mesos written from the scheduler API documentation", "violations are confirmed by replaying the recorded tape in a fresh process (canonical log hash must match); tapes of this harness are not shrunk"}, commonAssumptions...),
 	},
 	"C06": {
 		Harness: "hcore", Level: "exploration", OnePerProcess: true,
 		QuickRuns: 1600, QuickBudgetS: 150, ThoroughRuns: 100000, ThoroughBudgetS: 1800,
 		WatchdogSlackS: 180, DetSeedsQuick: 0, DetSeedsThorough: 0,
-		Rule: "same multi-environment workload plus tasks that fail to start / never start / fail CONFIGURE, a template that fails to load, DESTROY hook tasks; oracles after every destroy or failed create: environment not listed, no task still owned by it, every task it owned was asked to terminate unless keep-tasks, success is not reported while still listed, leftovers are killed by the next CleanupTasks; non-trivial = the oracle's situation really occurred; distinct = distinct (scenario, interleaving)",
-		Real: []string{"core.RpcServer methods (NewEnvironment, ControlEnvironment, DestroyEnvironment, GetEnvironments, GetTasks, CleanupTasks)", "core/environment: Manager (create, teardown, event loop), Environment FSM, transition_*.go bodies", "core/task: Manager (acquire/configure/transition/release/kill, status handling), scheduler event handlers (offers, updates, messages, failure, reconciliation), roster, matching", "core/controlcommands", "core/workflow (load from a generated local git repository, role tree, template processing)", "core/repos (local repository)", "apricot/local + cfgbackend.ConsulSource + hashicorp consul api", "mesos-go controller, event/call rules, ack handling", "looplab/fsm (instrumented copy)"},
-		Stub: []string{"Mesos master, agents, executors and tasks: simmesos behind the calls.Caller seam (verif hook SetCallerForVerif)", "Consul: simconsul (http.RoundTripper)", "Kafka: capturing event writers", "gRPC transport: RPC methods are called directly on the RpcServer object (verif hook)", "metrics HTTP server: disabled (port -1)"},
+		Rule:        "same multi-environment workload plus tasks that fail to start / never start / fail CONFIGURE, a template that fails to load, DESTROY hook tasks; oracles after every destroy or failed create: environment not listed, no task still owned by it, every task it owned was asked to terminate unless keep-tasks, success is not reported while still listed, leftovers are killed by the next CleanupTasks; non-trivial = the oracle's situation really occurred; distinct = distinct (scenario, interleaving)",
+		Real:        []string{"core.RpcServer methods (NewEnvironment, ControlEnvironment, DestroyEnvironment, GetEnvironments, GetTasks, CleanupTasks)", "core/environment: Manager (create, teardown, event loop), Environment FSM, transition_*.go bodies", "core/task: Manager (acquire/configure/transition/release/kill, status handling), scheduler event handlers (offers, updates, messages, failure, reconciliation), roster, matching", "core/controlcommands", "core/workflow (load from a generated local git repository, role tree, template processing)", "core/repos (local repository)", "apricot/local + cfgbackend.ConsulSource + hashicorp consul api", "mesos-go controller, event/call rules, ack handling", "looplab/fsm (instrumented copy)"},
+		Stub:        []string{"Mesos master, agents, executors and tasks: simmesos behind the calls.Caller seam (verif hook SetCallerForVerif)", "Consul: simconsul (http.RoundTripper)", "Kafka: capturing event writers", "gRPC transport: RPC methods are called directly on the RpcServer object (verif hook)", "metrics HTTP server: disabled (port -1)"},
 		Assumptions: append([]string{"simmesos is a model of Mesos written from the scheduler API documentation", "violations are confirmed by replaying the recorded tape in a fresh process (canonical log hash must match); tapes of this harness are not shrunk"}, commonAssumptions...),
+	},
+	"C17": {
+		Harness: "hexec", Level: "exploration",
+		QuickRuns: 6000, QuickBudgetS: 90, ThoroughRuns: 600000, ThoroughBudgetS: 1200,
+		WatchdogSlackS: 120, DetSeedsQuick: 20, DetSeedsThorough: 200,
+		Rule: "one run = the real executor (event loop, handlers, basic / hook / controllable tasks, RpcClient, transitioners) on a simulated host with 1-3 tasks; per task a drawn process-group script (main process, optional wrapping shell, optional forked children; lifetime, exit code, TERM/INT dispositions incl. slow and ignoring, exec failure) and, for controllable tasks, a simulated OCC device (listen/ready delays or never, start-up state, per-transition ok/slow/too slow/fail/hang/crash, exit after DONE or not, pid reported or not); the harness plays agent and core: LAUNCH, awaited transitions, hook triggers (also after the kill), KILL, repeated KILL, KILL of an unknown task at drawn instants, UPDATE send failures; all goroutines of executor, tasks and process behaviours under one seeded schedule and fake clock; oracles after 120 s of settling: at most one terminal status and nothing after it, a child ended by the executor's signal or walked to DONE on request is not reported FAILED, no process of a group alive 60 s after STOP (basic) / KILL, a killed task has a terminal status, no panic in executor code (recovered per goroutine, named by function and statement), event loop still serves a fresh LAUNCH; fault intensity drawn per run (1 in 3/6/12); distinct = distinct (scenario, interleaving)",
+		Real: []string{"executor: eventLoop, buildEventHandler, handleLaunchEvent / handleKillEvent / handleMessageEvent, status and message plumbing (actions.go)", "executor/executable: NewTask, BasicTask, HookTask, ControllableTask (Launch, Kill, Transition, doTermIntKill, pidExists), prepareTaskCmd", "executor/executorcmd: RpcClient.doTransition, ExecutorCommand_Transition; transitioner.Direct", "core/controlcommands command and response encoding"},
+		Stub: []string{"operating system: simrt/simos process table (process groups, signals, zombies, reaping) behind os/exec, syscall.Kill, os.FindProcess (rewriter rule R5)", "controlled processes and their OCC server: behaviour scripts + simulated device (OccClient) behind the dial seam (verif hook NewClientDialedForVerif)", "Mesos agent: harness (calls.Sender + event decoder; verif hook NewExecutorForVerif builds the executor state as Run does); Run's re-subscription loop is re-implemented by the harness (1 s backoff, checkpointing on)", "FairMQ transitioner not exercised here (C16 covers it): tasks are DIRECT, BASIC or HOOK"},
+		Assumptions: append([]string{
+			"simos models Linux semantics relevant here: kill(2) on pid / -pgid / zombies, ESRCH, os.FindProcess + Signal(0) (ErrProcessDone), exec.Cmd Start/Wait/ProcessState nil-ness (checked against the real os/exec on this machine)",
+			"the core awaits the response of a transition (up to 20 s) before sending the next one to the same task; KILL and hook triggers may arrive at any time",
+			"survivor and terminal-status oracles are evaluated >= 60 s after the request, far beyond the 5+4x5+1+2+3 s escalation",
+		}, commonAssumptions...),
 	},
 	"C18": {
 		Harness: "hcore", Level: "exploration", OnePerProcess: true,
 		QuickRuns: 1600, QuickBudgetS: 150, ThoroughRuns: 100000, ThoroughBudgetS: 1800,
 		WatchdogSlackS: 180, DetSeedsQuick: 0, DetSeedsThorough: 0,
-		Rule: "one run = whole core with an environment in a drawn phase of its life; either the core is crashed at a drawn instant (its goroutines never run again, only simconsul and simmesos survive) and a new incarnation is booted, or the subscription is dropped and re-established; oracles: restart subscribes under the stored framework id, every task Mesos still holds alive from the previous life is killed within 60 s, the new instance lists no environment; reconnect: no KILL for tasks owned by the live environment, environment state unchanged; non-trivial = the oracle's situation really occurred; distinct = distinct (scenario, interleaving)",
-		Real: []string{"core.RpcServer methods (NewEnvironment, ControlEnvironment, DestroyEnvironment, GetEnvironments, GetTasks, CleanupTasks)", "core/environment: Manager (create, teardown, event loop), Environment FSM, transition_*.go bodies", "core/task: Manager (acquire/configure/transition/release/kill, status handling), scheduler event handlers (offers, updates, messages, failure, reconciliation), roster, matching", "core/controlcommands", "core/workflow (load from a generated local git repository, role tree, template processing)", "core/repos (local repository)", "apricot/local + cfgbackend.ConsulSource + hashicorp consul api", "mesos-go controller, event/call rules, ack handling", "looplab/fsm (instrumented copy)"},
-		Stub: []string{"Mesos master, agents, executors and tasks: simmesos behind the calls.Caller seam (verif hook SetCallerForVerif)", "Consul: simconsul (http.RoundTripper)", "Kafka: capturing event writers", "gRPC transport: RPC methods are called directly on the RpcServer object (verif hook)", "metrics HTTP server: disabled (port -1)"},
+		Rule:        "one run = whole core with an environment in a drawn phase of its life; either the core is crashed at a drawn instant (its goroutines never run again, only simconsul and simmesos survive) and a new incarnation is booted, or the subscription is dropped and re-established; oracles: restart subscribes under the stored framework id, every task Mesos still holds alive from the previous life is killed within 60 s, the new instance lists no environment; reconnect: no KILL for tasks owned by the live environment, environment state unchanged; non-trivial = the oracle's situation really occurred; distinct = distinct (scenario, interleaving)",
+		Real:        []string{"core.RpcServer methods (NewEnvironment, ControlEnvironment, DestroyEnvironment, GetEnvironments, GetTasks, CleanupTasks)", "core/environment: Manager (create, teardown, event loop), Environment FSM, transition_*.go bodies", "core/task: Manager (acquire/configure/transition/release/kill, status handling), scheduler event handlers (offers, updates, messages, failure, reconciliation), roster, matching", "core/controlcommands", "core/workflow (load from a generated local git repository, role tree, template processing)", "core/repos (local repository)", "apricot/local + cfgbackend.ConsulSource + hashicorp consul api", "mesos-go controller, event/call rules, ack handling", "looplab/fsm (instrumented copy)"},
+		Stub:        []string{"Mesos master, agents, executors and tasks: simmesos behind the calls.Caller seam (verif hook SetCallerForVerif)", "Consul: simconsul (http.RoundTripper)", "Kafka: capturing event writers", "gRPC transport: RPC methods are called directly on the RpcServer object (verif hook)", "metrics HTTP server: disabled (port -1)"},
 		Assumptions: append([]string{"simmesos is a model of Mesos written from the scheduler API documentation", "violations are confirmed by replaying the recorded tape in a fresh process (canonical log hash must match); tapes of this harness are not shrunk"}, commonAssumptions...),
 	},
 	"C05": {
 		Harness: "hcore", Level: "exploration", OnePerProcess: true,
 		QuickRuns: 3000, QuickBudgetS: 120, ThoroughRuns: 200000, ThoroughBudgetS: 1800,
 		WatchdogSlackS: 180, DetSeedsQuick: 0, DetSeedsThorough: 0,
-		Rule: "one run = whole core, 2-4 agents with drawn attributes (zone, multi-valued kind), scalar resources near and far from the demand (0.45/1.2/8 cpus, 300/4096 MB) and fragmented port ranges; one workflow with constraints at root, group, role and task-template level (same attribute redefined nearer), tasks wanting 0.1-1 cpu, 64-256 MB, optional static ports, 0-2 inbound channels; oracles at the simulated master for every ACCEPT: no launch beyond the offer (scalars summed over the launches of one ACCEPT incl. a new executor, ports inside the offer and distinct), agent satisfies all merged constraints (reference merge: nearest definition wins), template wants covered, static ranges requested verbatim, every offer used or declined, core does not crash; distinct = distinct (scenario, interleaving)",
-		Real: []string{"core.RpcServer methods (NewEnvironment, ControlEnvironment, DestroyEnvironment, GetEnvironments, GetTasks, CleanupTasks)", "core/environment: Manager (create, teardown, event loop), Environment FSM, transition_*.go bodies", "core/task: Manager (acquire/configure/transition/release/kill, status handling), scheduler event handlers (offers, updates, messages, failure, reconciliation), roster, matching", "core/controlcommands", "core/workflow (load from a generated local git repository, role tree, template processing)", "core/repos (local repository)", "apricot/local + cfgbackend.ConsulSource + hashicorp consul api", "mesos-go controller, event/call rules, ack handling", "looplab/fsm (instrumented copy)"},
-		Stub: []string{"Mesos master, agents, executors and tasks: simmesos behind the calls.Caller seam (verif hook SetCallerForVerif)", "Consul: simconsul (http.RoundTripper)", "Kafka: capturing event writers", "gRPC transport: RPC methods are called directly on the RpcServer object (verif hook)", "metrics HTTP server: disabled (port -1)"},
+		Rule:        "one run = whole core, 2-4 agents with drawn attributes (zone, multi-valued kind), scalar resources near and far from the demand (0.45/1.2/8 cpus, 300/4096 MB) and fragmented port ranges; one workflow with constraints at root, group, role and task-template level (same attribute redefined nearer), tasks wanting 0.1-1 cpu, 64-256 MB, optional static ports, 0-2 inbound channels; oracles at the simulated master for every ACCEPT: no launch beyond the offer (scalars summed over the launches of one ACCEPT incl. a new executor, ports inside the offer and distinct), agent satisfies all merged constraints (reference merge: nearest definition wins), template wants covered, static ranges requested verbatim, every offer used or declined, core does not crash; distinct = distinct (scenario, interleaving)",
+		Real:        []string{"core.RpcServer methods (NewEnvironment, ControlEnvironment, DestroyEnvironment, GetEnvironments, GetTasks, CleanupTasks)", "core/environment: Manager (create, teardown, event loop), Environment FSM, transition_*.go bodies", "core/task: Manager (acquire/configure/transition/release/kill, status handling), scheduler event handlers (offers, updates, messages, failure, reconciliation), roster, matching", "core/controlcommands", "core/workflow (load from a generated local git repository, role tree, template processing)", "core/repos (local repository)", "apricot/local + cfgbackend.ConsulSource + hashicorp consul api", "mesos-go controller, event/call rules, ack handling", "looplab/fsm (instrumented copy)"},
+		Stub:        []string{"Mesos master, agents, executors and tasks: simmesos behind the calls.Caller seam (verif hook SetCallerForVerif)", "Consul: simconsul (http.RoundTripper)", "Kafka: capturing event writers", "gRPC transport: RPC methods are called directly on the RpcServer object (verif hook)", "metrics HTTP server: disabled (port -1)"},
 		Assumptions: append([]string{"simmesos validates an ACCEPT the way a Mesos master does (documented behaviour); the code's numeric port thresholds are not part of the oracle", "violations are confirmed by replay in a fresh process; tapes of this harness are not shrunk"}, commonAssumptions...),
 	},
 	"C13": {
 		Harness: "hcore", Level: "exploration", OnePerProcess: true,
 		QuickRuns: 3000, QuickBudgetS: 120, ThoroughRuns: 200000, ThoroughBudgetS: 1800,
 		WatchdogSlackS: 180, DetSeedsQuick: 0, DetSeedsThorough: 0,
-		Rule: "one run = whole core, a workflow of 1-4 FairMQ tasks with 0-2 inbound (tcp/ipc, transports, global aliases) and 0-2 outbound channels each (target by role path, by alias, explicit tcp://, dangling); oracles on the CONFIGURE arguments each simulated executor receives: every inbound channel is told to bind an endpoint whose port was allocated to that task, every outbound channel gets tcp://<host of the binder>:<that port> (or the ipc path) and the inbound side's transport, explicit targets unchanged, dangling targets and clashing aliases make the configuration fail; distinct = distinct (scenario, interleaving)",
-		Real: []string{"core.RpcServer methods (NewEnvironment, ControlEnvironment, DestroyEnvironment, GetEnvironments, GetTasks, CleanupTasks)", "core/environment: Manager (create, teardown, event loop), Environment FSM, transition_*.go bodies", "core/task: Manager (acquire/configure/transition/release/kill, status handling), scheduler event handlers (offers, updates, messages, failure, reconciliation), roster, matching", "core/controlcommands", "core/workflow (load from a generated local git repository, role tree, template processing)", "core/repos (local repository)", "apricot/local + cfgbackend.ConsulSource + hashicorp consul api", "mesos-go controller, event/call rules, ack handling", "looplab/fsm (instrumented copy)"},
-		Stub: []string{"Mesos master, agents, executors and tasks: simmesos behind the calls.Caller seam (verif hook SetCallerForVerif)", "Consul: simconsul (http.RoundTripper)", "Kafka: capturing event writers", "gRPC transport: RPC methods are called directly on the RpcServer object (verif hook)", "metrics HTTP server: disabled (port -1)"},
+		Rule:        "one run = whole core, a workflow of 1-4 FairMQ tasks with 0-2 inbound (tcp/ipc, transports, global aliases) and 0-2 outbound channels each (target by role path, by alias, explicit tcp://, dangling); oracles on the CONFIGURE arguments each simulated executor receives: every inbound channel is told to bind an endpoint whose port was allocated to that task, every outbound channel gets tcp://<host of the binder>:<that port> (or the ipc path) and the inbound side's transport, explicit targets unchanged, dangling targets and clashing aliases make the configuration fail; distinct = distinct (scenario, interleaving)",
+		Real:        []string{"core.RpcServer methods (NewEnvironment, ControlEnvironment, DestroyEnvironment, GetEnvironments, GetTasks, CleanupTasks)", "core/environment: Manager (create, teardown, event loop), Environment FSM, transition_*.go bodies", "core/task: Manager (acquire/configure/transition/release/kill, status handling), scheduler event handlers (offers, updates, messages, failure, reconciliation), roster, matching", "core/controlcommands", "core/workflow (load from a generated local git repository, role tree, template processing)", "core/repos (local repository)", "apricot/local + cfgbackend.ConsulSource + hashicorp consul api", "mesos-go controller, event/call rules, ack handling", "looplab/fsm (instrumented copy)"},
+		Stub:        []string{"Mesos master, agents, executors and tasks: simmesos behind the calls.Caller seam (verif hook SetCallerForVerif)", "Consul: simconsul (http.RoundTripper)", "Kafka: capturing event writers", "gRPC transport: RPC methods are called directly on the RpcServer object (verif hook)", "metrics HTTP server: disabled (port -1)"},
 		Assumptions: append([]string{"simmesos validates an ACCEPT the way a Mesos master does (documented behaviour); the code's numeric port thresholds are not part of the oracle", "violations are confirmed by replay in a fresh process; tapes of this harness are not shrunk"}, commonAssumptions...),
 	},
 	"C15": {
 		Harness: "hload", Level: "exploration",
 		QuickRuns: 2400, QuickBudgetS: 100, ThoroughRuns: 300000, ThoroughBudgetS: 1500,
 		WatchdogSlackS: 180, DetSeedsQuick: 10, DetSeedsThorough: 100,
-		Rule: "one run = a generated workflow template (1-3 top roles, depth <= 3, aggregators, tasks, calls, iterators over two list variables incl. an empty one, enabled = false / flag variable / expression over an iteration variable, variables referring to a root default, optionally one broken template expression) processed by the real ProcessTemplates once sequentially and 1-4 more times under drawn settings of the three concurrency switches, every load under a seeded schedule of the template goroutines (R4 race points on captured variables); oracles: loaded tree = independent reference expansion (paths in order), variables equal across loads, a reached template error fails every load; non-trivial = more than one role expected; distinct = distinct (scenario, interleaving)",
-		Real:    []string{"core/workflow: aggregatorRole/iteratorRole/taskRole/callRole ProcessTemplates, expandTemplate, copies, pruning", "configuration/template (fields, stages, expression evaluation)", "common/gera maps"},
-		Stub:    []string{"repository: fake IRepo", "configuration service: apricot local over simconsul (empty)", "no sub-workflow includes"},
+		Rule:        "one run = a generated workflow template (1-3 top roles, depth <= 3, aggregators, tasks, calls, iterators over two list variables incl. an empty one, enabled = false / flag variable / expression over an iteration variable, variables referring to a root default, optionally one broken template expression) processed by the real ProcessTemplates once sequentially and 1-4 more times under drawn settings of the three concurrency switches, every load under a seeded schedule of the template goroutines (R4 race points on captured variables); oracles: loaded tree = independent reference expansion (paths in order), variables equal across loads, a reached template error fails every load; non-trivial = more than one role expected; distinct = distinct (scenario, interleaving)",
+		Real:        []string{"core/workflow: aggregatorRole/iteratorRole/taskRole/callRole ProcessTemplates, expandTemplate, copies, pruning", "configuration/template (fields, stages, expression evaluation)", "common/gera maps"},
+		Stub:        []string{"repository: fake IRepo", "configuration service: apricot local over simconsul (empty)", "no sub-workflow includes"},
 		Assumptions: append([]string{"the reference expansion is written from the property statement for the generated template language subset (no includes)"}, commonAssumptions...),
 	},
 }
